@@ -223,6 +223,9 @@ def run(oc, tier, seed):
     check_dir(eng, rng, {"sep.zo": "# sep\n\n- pasted\xe2\x80\xa8 text above\n- form\x0cfeed and file\x1cseparator\n"
                                    "- a second note without zid\no P1 third\n  * bullet of third\n- fourth\n\n",
                          "sub/plain.zo": "# plain\n\n- only note\n\n"}, oc, False)
+    # in every run: more than 40 new notes of one creation date (the suffix chain passes the excluded letters I O Q S g i j l)
+    check_dir(eng, rng, {"many.zo": "# many\n\n" + "".join("- new note number %d\n" % k for k in range(30)) + "\n",
+                         "sub/more.zo": "# more\n\n" + "".join("o P%d another %d\n" % (k % 10, k) for k in range(18)) + "\n"}, oc, False)
     search = 10
     for i in range(n + 10):
         if i >= n and not oc.corr_mismatch:
